@@ -774,8 +774,13 @@ def forall_guards(prog, f, its, B):
                 if edge is not None and an.dominated_by_edge(f, sb, edge, B):
                     out.append({"it": it, "cmp": norm_cmp(holds), "how": "%s(..) %s" % (it.consumer, "is true" if it.consumer == "all" else "finds nothing")})
         elif it.kind == "loop":
-            if not an.dominated_by_edge(f, it.switch_bb, it.none_t, B) or B in it.loop_blocks:
+            if B in it.loop_blocks:
                 continue
+            if not an.dominated_by_edge(f, it.switch_bb, it.none_t, B):
+                # B may still be reached only after exhaustion: no early exit of the loop leads to it on a feasible path (an inlined helper's
+                # `return Kind::TooFew` merges with its normal result in front of the caller's `match`)
+                if it.none_t is None or B not in f.reachable_from(it.none_t) or not flag_read_after_full_run(f, it, B):
+                    continue
             for sb, st in it.switches():
                 s = an.switch_subject(f, sb)
                 if s["kind"] != "value" or s["root"] is None:
@@ -803,6 +808,10 @@ def forall_guards(prog, f, its, B):
                     reach = an.reachable_with_edges_removed(f, bad, set(), dead)
                     if B not in reach and it.bb not in reach:
                         out.append({"it": it, "cmp": norm_cmp(holds), "how": "the loop leaves as soon as an element violates it and B is not reached from there"})
+                    elif B not in reach and bad in it.loop_blocks:
+                        # the loop goes on, but what the violating arm stored (a flag, an enum value: `fit = Fit::Projectable`) decides a later
+                        # test against B, and nothing on the way stores the value B needs
+                        out.append({"it": it, "cmp": norm_cmp(holds), "how": "an element that violates it stores a value with which B is not reached"})
     # flags (all(..) results are handled above; conjunction and violation flags here) tested on their true edge
     flags = forall_flags(prog, f, its)
     for sb, st in f.switches():
@@ -869,6 +878,26 @@ def exists_guards(prog, f, its, B):
                         continue
                     if an.dominated_by_edge(f, sb, tgt, B):
                         out.append({"it": it, "cmp": norm_cmp(holds), "how": "the loop is left at the first element for which it is true, and B is reached only from there"})
+    # B lies behind a test of a stored value (`match fit { Projectable => B }`) all of whose sources sit under one edge of a per-element
+    # comparison inside a loop: some element took that edge
+    for sw, stw in f.switches():
+        for e in set(f.succ.get(sw, [])):
+            if not an.dominated_by_edge(f, sw, e, B):
+                continue
+            D = an.edge_provenance(f, sw, e)
+            if not D:
+                continue
+            for it in its:
+                if it.parent is not f or it.kind != "loop" or sw in it.loop_blocks or not all(d in it.loop_blocks for d in D):
+                    continue
+                for sb, st in it.switches():
+                    r = _cmp_of_switch(f, it, sb, st)
+                    if r is None:
+                        continue
+                    c, t_true, t_false = r
+                    for tgt, holds in ((t_true, c), (t_false, (NEG[c[0]], c[1], c[2]))):
+                        if tgt is not None and all(d == tgt or an.dominated_by_edge(f, sb, tgt, d) for d in D):
+                            out.append({"it": it, "cmp": norm_cmp(holds), "how": "B needs a value that is stored only where it is true for some element"})
     flags = forall_flags(prog, f, its)
     for sb, st in f.switches():
         s = an.switch_subject(f, sb)
